@@ -72,10 +72,11 @@ class Driver:
         Q = lambda q: real_query(tf, q)
         if k == "insert":
             pts = self._points(o[1])
+            kw = {"compact_key_prefixes": True} if "compact" in o[3:] else {}
             try:
-                if len(pts) == 1 and not o[3:]:
-                    return ("nat", db.insert(pts[0], o[2]) if o[2] is not None else db.insert(pts[0]))
-                return ("nat", db.insert_multiple(pts, o[2]) if o[2] is not None else db.insert_multiple(pts))
+                if len(pts) == 1 and "multiple" not in o[3:]:
+                    return ("nat", db.insert(pts[0], o[2], **kw) if o[2] is not None else db.insert(pts[0], **kw))
+                return ("nat", db.insert_multiple(pts, o[2], **kw) if o[2] is not None else db.insert_multiple(pts, **kw))
             finally:
                 self._stamp(o[1], pts)
         if k == "remove":
